@@ -248,6 +248,46 @@ def check_binding(B, m, tag, times, rename=None, outputs=None, reduced=None,
         B.fact('%s: all sensitivities after a subset' % tag,
                np.shape(s7) == (len(times), len(outs), n),
                repr(np.shape(s7)))
+    if len(outs) >= 2:
+        # the same outputs selected in another order while sensitivities are
+        # on: values and derivative rows follow the new order (whether the
+        # call leaves the sensitivities on or, as documented, resets them)
+        m.enable_sensitivities(True)
+        new = outs[::-1]
+        m.set_outputs(list(new))
+        B.fact('%s: outputs re-ordered' % tag, list(m._output_names) == new,
+               repr(m._output_names))
+        res = m.simulate(pa, times)
+        if m.has_sensitivities():
+            y8, s8 = res
+        else:
+            y8, s8 = res, None
+        B.fact('%s: re-ordered outputs: result shape' % tag,
+               np.shape(y8) == (len(new), len(times)), repr(np.shape(y8)))
+        if np.shape(y8) == (len(new), len(times)):
+            for o, on in enumerate(new):
+                for k, t in enumerate(times):
+                    B.eq('%s: re-ordered outputs: simulate[%s, t=%s]'
+                         % (tag, on, t), y8[o][k],
+                         B.uf('F[%s|%s|%r|%s]' % (
+                             sig, on, round(float(t), 9), pname), *args))
+        if s8 is not None:
+            B.fact('%s: re-ordered outputs: sensitivity shape' % tag,
+                   np.shape(s8) == (len(times), len(new), n),
+                   repr(np.shape(s8)))
+            if np.shape(s8) == (len(times), len(new), n):
+                order = states + consts
+                for k, t in enumerate(times):
+                    for o, on in enumerate(new):
+                        for i in range(n):
+                            j = order.index(myo[i])
+                            B.eq('%s: re-ordered outputs: sens[t=%s, %s, '
+                                 'd/d %s]' % (tag, t, on, pub[i]),
+                                 s8[k][o][i],
+                                 B.uf('D%d:F[%s|%s|%r|%s]' % (
+                                     j, sig, on, round(float(t), 9), pname),
+                                     *args))
+        m.set_outputs(list(outs))
     m.enable_sensitivities(False)
     if reduced:
         r = chi.ReducedMechanisticModel(m)
